@@ -33,7 +33,7 @@ RULE = ("ops from harness/src/c02.rs, one splitmix64 PRNG (VERIF_SEED): `hist` (
         "is interrupted (`z`: the index file of one snapshot survives next to the rebuilt one = duplicate index entries), control of the order in "
         "which index files arrive at the planner (`o`: smallest / largest first); 10/12 of the histories start with one of five shapes "
         "{REPACKING prune (partly used data packs, max-unused 0, mark-only or instant) under the fault sweep, then often the deleting prune under faults; prune while a backup is half done, then the backup finishes, then prune past keep-delete; keep-delete>0 + re-upload of marked blobs + repack of the partly used new packs; backup overlapping the marking prune then prune (often "
-        "instant); packs older than keep-delete when marked, second prune right away, then the data is needed again}, 2/12 are purely random (incl. `q`); plus 2 (thorough 12) BIG-INDEX histories: fixed-size chunker with 8-byte "
+        "instant); packs older than keep-delete when marked, second prune right away, then the data is needed again}, 2/12 are purely random (incl. `q`); plus 3 (thorough 12) BIG-INDEX histories: fixed-size chunker with 8-byte "
         "chunks, two backups with a large file of ~0.6 x MIN_INDEX_LEN (hook verif::prune::MIN_INDEX_LEN) records each and a small one, a merging "
         "prune interrupted so that one snapshot's old index file survives beside the merged index file (>= MIN_INDEX_LEN blobs), forget, (instant) "
         "prune with the small / large index file arriving first, backup of the forgotten version again. "
